@@ -207,7 +207,8 @@ class SdoClient(SdoBase):
             else:
                 raw_stream = ReadableStream(self, index, subindex)
             if buffering:
-                buffered_stream = io.BufferedReader(raw_stream, buffer_size=buffer_size)
+                # readinto() delivers whole segments: the buffer must hold at least one
+                buffered_stream = io.BufferedReader(raw_stream, buffer_size=max(buffer_size, 7))
             else:
                 return raw_stream
         if "w" in mode:
